@@ -16,6 +16,25 @@ from vlib.report import Report
 
 _REG = {}
 
+# "Background activity": unrelated calls of other public functions of the module under test,
+# one of them (in rotation, by case index) before every case. A pure function's answer cannot
+# depend on what else the process has used the module for; state shared between functions
+# (a cache keyed too coarsely, a module-level buffer, a warmed-up parser) can. The calls are
+# deterministic, so a replay through rerun() repeats them.
+NOISE = []
+
+
+def set_noise(calls):
+    NOISE[:] = list(calls)
+
+
+def _noise(idx, every=1):
+    if NOISE and idx % every == 0:
+        try:
+            NOISE[(idx // every) % len(NOISE)]()
+        except Exception:
+            pass
+
 
 def size(factors):
     n = 1
@@ -34,12 +53,13 @@ def decode(factors, idx):
 
 def _work(job):
     label, lo, hi, active = job
-    factors, fn = _REG[label]
+    factors, fn, every = _REG[label]
     acc = Report('worker', active)
     for idx in range(lo, hi):
         vals = decode(factors, idx)
         acc.counters['evaluations'] += 1
         acc.current_case = [label, idx]
+        _noise(idx, every)
         try:
             fn(vals, acc)
         except Exception as e:
@@ -58,7 +78,8 @@ def run(rep, label, factors, fn, nparts=None):
     """Runs the whole product. Returns the number of cases."""
     factors = [list(f) for f in factors]
     n = size(factors)
-    _REG[label] = (factors, fn)
+    # one background call per case for small products, sparser for large ones
+    _REG[label] = (factors, fn, 1 if n <= 20000 else 8 if n <= 200000 else 64)
     if n == 0:
         return 0
     if nparts is None:
@@ -87,10 +108,11 @@ def rerun(label, idx, back=3):
     kept between calls). -> list of failure summaries of the last case."""
     if label not in _REG:
         return None
-    factors, fn = _REG[label]
+    factors, fn, every = _REG[label]
     out = []
     for i in range(max(0, idx - back), idx + 1):
         acc = Report('replay', {})
+        _noise(i, every)
         try:
             fn(decode(factors, i), acc)
         except Exception as e:
